@@ -447,9 +447,14 @@ def k1_probe(ctx, case: Case, seed: int, res: dict, files: dict[str, bytes]):
             if src is None:
                 continue
             real = None
-            for st in ast.parse(src.decode()).body:
+            tree = ast.parse(src.decode())
+            for st in tree.body:
                 if isinstance(st, ast.ImportFrom) and st.level == 1 and st.module == m["module"]:
                     real = [a.name for a in st.names]
+            # autoflake (before isort) drops the names the module does not use: since 959c464 a mixin that
+            # another base already inherits is imported by the generator but no longer listed as a base
+            used = {n.id for n in ast.walk(tree) if isinstance(n, ast.Name)}
+            got = [n for n in got if n in used] or None
             if real != got:
                 run.violation(f"K1 op_import_names: model {got!r} vs `from .{m['module']} import` {real!r} in {fname} ({case.sid}, seed {seed})",
                               {"stage": "K1 operation imports", "case": case.sid, "hashseed": seed, "probe": m,
@@ -513,8 +518,21 @@ def shrink(ctx, case: Case, seed_a: int, seed_b: int, scratch, budget: int = 40)
         wb.close()
 
 
+MAX_REPORTS, MAX_SHRINKS = 12, 2
+
+
 def report_mismatch(ctx, case: Case, what: str, la: str, lb: str, fa: dict, fb: dict, scratch, seeds=None):
     run = ctx.run
+    st = ctx.__dict__.setdefault("_reports", {"n": 0, "shrinks": 0, "seen": set()})
+    st["n"] += 1
+    run.dist("unexplained_differences", what)
+    if st["n"] > MAX_REPORTS or (case.sid, what) in st["seen"]:
+        return   # counted in the evidence; the first reports carry the replays
+    st["seen"].add((case.sid, what))
+    shrink_seeds = None
+    if seeds is not None and st["shrinks"] < MAX_SHRINKS:
+        st["shrinks"] += 1
+        shrink_seeds = seeds
     names = sorted(set(fa) | set(fb))
     differing = [n for n in names if fa.get(n) != fb.get(n)]
     replay = {"case": case.sid, "kind": case.kind, "plugins": list(case.plugins), "variants": [la, lb],
@@ -522,6 +540,7 @@ def report_mismatch(ctx, case: Case, what: str, la: str, lb: str, fa: dict, fb: 
               "config": case.config(), "extra_files": case.sc.files}
     if seeds is not None:
         replay["hashseeds"] = list(seeds)
+    if shrink_seeds is not None:
         try:
             sm = shrink(ctx, case, seeds[0], seeds[1], scratch)
         except Exception as exc:  # noqa
@@ -769,6 +788,52 @@ def k3(ctx, scratch):
                 break
 
 
+def base_model_imports(src: bytes):
+    """names imported from base_model at module level / under `if TYPE_CHECKING:` in a client module"""
+    top, tc = [], []
+    for st in ast.parse(src.decode()).body:
+        if isinstance(st, ast.ImportFrom) and st.module == "base_model":
+            top += [a.name for a in st.names]
+        if isinstance(st, ast.If) and ast.unparse(st.test) == "TYPE_CHECKING":
+            for s2 in st.body:
+                if isinstance(s2, ast.ImportFrom) and s2.module == "base_model":
+                    tc += [a.name for a in s2.names]
+    return sorted(top), sorted(tc)
+
+
+def k1_procstate(ctx, kind, cs, got, fresh_last: bytes, second_last: bytes):
+    """Model gen_client_imports/run_history vs the client module of the SECOND generation of an interpreter.
+    The shared nodes start as the constants of client_generators/constants.py; `wanted` of the first
+    generation is what its own client module imports from base_model under TYPE_CHECKING; autoflake then keeps
+    the names the second client uses (= the names its fresh generation imports)."""
+    run = ctx.run
+    try:
+        from ariadne_codegen.client_generators import constants as k
+        st0 = [[n.module, [a.name for a in n.names]] for n in (k.UNSET_IMPORT, k.UPLOAD_IMPORT)]
+    except Exception as exc:  # noqa
+        run.extra["procstate_constants_missing"] = repr(exc)
+        return
+    client0 = cs[0].sc.config.get("client_file_name", "client") + ".py"
+    if got[0] is None or client0 not in got[0]:
+        return
+    _top0, wanted = base_model_imports(got[0][client0])
+    fresh_top, fresh_tc = base_model_imports(fresh_last)
+    real_top, real_tc = base_model_imports(second_last)
+    plugin2 = "fwdrefs" in cs[-1].plugins
+    wanted2 = fresh_tc if plugin2 else []
+    out = model.call("C10", [Sym("procstate"), False, [[True, wanted], [plugin2, wanted2]], st0])
+    imps2, moved2 = out[1]
+    pred_names = sorted(n for m, names in imps2 if m == "base_model" for n in names)
+    used = set(fresh_top) | set(fresh_tc)
+    pred_top = sorted(n for n in pred_names if n in used)
+    run.count()
+    run.dist("k1_procstate", kind)
+    if pred_top != real_top or sorted(moved2) != real_tc:
+        run.violation(f"K1 gen_client_imports: model predicts base_model imports {pred_top} / TYPE_CHECKING {sorted(moved2)} for the second generation ({kind}: {[c.sid for c in cs]}), real {real_top} / {real_tc}",
+                      {"stage": "K1 process state", "kind": kind, "sequence": [c.sid for c in cs], "wanted_first": wanted,
+                       "model": out, "real": [real_top, real_tc], "fresh": [fresh_top, fresh_tc]}, found_input=False)
+
+
 def k3_same_process(ctx, cases, scratch, results):
     """several generations in ONE interpreter: the same case twice; a plain case after a ClientForwardRefs one"""
     run = ctx.run
@@ -810,6 +875,8 @@ def k3_same_process(ctx, cases, scratch, results):
             continue
         differing = [k for k in sorted(set(last) | set(want)) if last.get(k) != want.get(k)]
         client_file = cs[-1].sc.config.get("client_file_name", "client") + ".py"
+        if kind != "twice" and client_file in last and client_file in want:
+            k1_procstate(ctx, kind, cs, got, want[client_file], last[client_file])
         if kind != "twice" and differing == [client_file]:
             run.finding(LEAK, f"{cs[-1].sid}: {client_file} of the second generation in one interpreter differs ({kind})",
                         {"sequence": [c.sid for c in cs], "kind": kind, "plugins": [list(c.plugins) for c in cs],
